@@ -136,7 +136,7 @@ _PRE = ["0 <= o0 <= 2 or o0 == 5", "o0 != 5 or (p0 == 0 and c0 == 0)", "0 <= p0 
 
 @harness("C04", args=_ARGS, pre=_PRE,
          tiers={"quick": {"timeout": 170, "pre": ["o0 == 1 or o0 == 5", "c2 == 0 or o2 == 5", "w == 2", "arr == False", "p2 <= 1"],
-                          "parts": [(f"p{p}_c{c}", f"p0 == {p} and c0 == {c}") for p in (0, 1) for c in range(8) if not (p >= 1 and c >= NB)]},
+                          "parts": [(f"p{p}_c{c}", f"o0 == 1 and p0 == {p} and c0 == {c}") for p in (0, 1) for c in range(8) if not (p >= 1 and c >= NB)] + [("ref", "o0 == 5")]},
                 "thorough": {"timeout": 600, "pre": ["c2 <= 1", "arr == False or (c0 <= 3 and c1 <= 3 and c2 <= 1)"], "parts": [(f"p{p}_c{c}_o{o}_q{q}", f"p0 == {p} and c0 == {c} and o1 == {o} and p1 == {q}") for p in (0, 1, 2) for c in range(8) for o in range(6) for q in (0, 1, 2)
                                        if not (p >= 1 and c >= NB) and not (o == 5 and q != 0) and not (o in (3, 4) and q != p)]}},
          sample=(1, 0, 5, 1, 0, 1, 2, 0, 0, 2, False),
